@@ -87,6 +87,11 @@ pub fn check_schema(s: &str) -> Option<Witness> {
     cases.push(("CREATE TYPE label", "postgres", ty.to_string(PostgresQueryBuilder)));
     let ta = extension::postgres::Type::alter().name(a("e")).add_value(a(s)).to_owned();
     cases.push(("ALTER TYPE ADD VALUE", "postgres", ta.to_string(PostgresQueryBuilder)));
+    // RENAME VALUE: the old and the new label, one hostile label per statement
+    let tr = extension::postgres::Type::alter().name(a("e")).rename_value(a(s), a("plain")).to_owned();
+    cases.push(("ALTER TYPE RENAME VALUE (old label)", "postgres", tr.to_string(PostgresQueryBuilder)));
+    let tr = extension::postgres::Type::alter().name(a("e")).rename_value(a("plain"), a(s)).to_owned();
+    cases.push(("ALTER TYPE RENAME VALUE (new label)", "postgres", tr.to_string(PostgresQueryBuilder)));
     // one inline position per statement (a second literal of the same value would mask a broken one)
     let q = Query::select().column(a("c")).from(a("t")).and_where(Expr::col(a("c")).like(LikeExpr::new(s).escape('!'))).to_owned();
     cases.push(("LIKE pattern", "mysql", q.to_string(MysqlQueryBuilder))); cases.push(("LIKE pattern", "postgres", q.to_string(PostgresQueryBuilder))); cases.push(("LIKE pattern", "sqlite", q.to_string(SqliteQueryBuilder)));
